@@ -292,7 +292,7 @@ func Prelude(li *LangInfo, native bool) string {
 	w("(declare-fun f_anyStr (Str) Any)")
 	w("(declare-fun f_anyInt (Int) Any)")
 	// --- readers (stream contract for io.ReadFull)
-	w("(declare-fun f_ravail (Int) Int)")        // bytes the source delivers before failing/ending
+	w("(declare-fun f_ravail (Int) Int)")         // bytes the source delivers before failing/ending
 	w("(declare-fun f_rseg (Int Int Int) Bytes)") // (reader, pos, n): the n bytes delivered from pos
 	w("(assert (forall ((r Int) (p Int) (n Int)) (! (=> (>= n 0) (= (f_blen (f_rseg r p n)) n)) :pattern ((f_rseg r p n)))))")
 	w("(assert (forall ((r Int) (p Int)) (! (= (f_rseg r p 0) f_emptyB) :pattern ((f_rseg r p 0)))))")
